@@ -284,4 +284,25 @@ theorem save_atomic (old : Bytes) (c : List Schema) (dflt : Nat) :
   simp only [saveStatesFixed, List.mem_cons, List.not_mem_nil, or_false] at hst
   rcases hst with h | h | h | h | h <;> simp [h]
 
+/-- two different representable catalogs never share an encoding (no information is merged by
+`serialize`) -/
+theorem serialize_injective (c1 c2 : List Schema) (h1 : ∀ s ∈ c1, wfSchema s)
+    (h2 : ∀ s ∈ c2, wfSchema s) (h : serialize c1 = serialize c2) : c1 = c2 := by
+  have e1 := deserialize_serialize c1 h1
+  have e2 := deserialize_serialize c2 h2
+  rw [h, e2] at e1
+  exact (Option.some.inj e1).symm
+
+/-- end-to-end crash statement for the repaired `save`: starting from a file written for a
+representable catalog `c0`, a crash at any step of saving a representable `c` leaves a file that
+loads to exactly `c0` or exactly `c` — no table or index of `c0` is ever lost -/
+theorem save_crash_safe (c0 c : List Schema) (d0 dflt : Nat)
+    (h0 : ∀ s ∈ c0, wfSchema s) (hc : ∀ s ∈ c, wfSchema s)
+    (hl0 : (serialize c0).length < 256 ^ 8) (hlc : (serialize c).length < 256 ^ 8) :
+    ∀ st ∈ saveStatesFixed (fileOf c0 d0) c dflt, load st = some c0 ∨ load st = some c := by
+  intro st hst
+  rcases save_atomic (fileOf c0 d0) c dflt st hst with h | h
+  · left; rw [h]; exact load_fileOf c0 d0 h0 hl0
+  · right; rw [h]; exact load_fileOf c dflt hc hlc
+
 end TurVerif.C40
